@@ -386,7 +386,7 @@ type Exploration struct {
 	// atSel[ins][i]: the φ operands selected on the path of at[ins][i]
 	atSel   map[ssa.Instruction][]uint64
 	phiSlot map[*ssa.Phi]int
-	P  *Prog
+	P       *Prog
 }
 
 func getSt(st uint64, i int) uint8 { return uint8(st>>(4*uint(i))) & 0xf }
